@@ -162,7 +162,7 @@ func normStatus(s int) int {
 }
 
 func genCall(r *rand.Rand) c19Call {
-	status := pick(r, []int{-1, 0, 100, 102, 200, 201, 202, 204, 301, 304, 400, 404, 418, 500, 503, 599})
+	status := pick(r, []int{-1, 0, 100, 102, 200, 201, 202, 204, 301, 304, 400, 404, 418, 500, 503, 599, 600, 701, 999})
 	want := normStatus(status)
 	preset := ""
 	if chance(r, 1, 3) {
@@ -501,7 +501,7 @@ func genCall(r *rand.Rand) c19Call {
 }
 
 func runC19(e *Env) {
-	e.Rule = "short histories (3..8 calls on one router, so that a failed encoding is followed by a successful one) of response helper calls: Context.Text/HTML/HTMLString/JSON/JSONBytes/JSONP/XML/Blob/Stream/NoContent/Redirect/HTTPError and pkg/render JSON/JSONIndented/JSONRenderer/JSONP/XML/XMLPretty/XMLRenderer/Text/HTML/Blob/Auto; statuses from {-1,0,100,...,599}; values: strings with HTML/unicode/control characters, nested maps, structs, byte slices and unencodable values (chan, func, NaN, map holding a channel); Stream readers with and without WriteTo, one-byte reads and a failing reader; preset or absent Content-Type; Accept lists with q-parameters, blanks, unsupported types (incl. text/html, for which Auto has no renderer, anywhere in the list). Oracle: recorded status == given (200 for <= 0), Content-Type == documented constant (or the preset one where the documentation says it is preserved), body decodes with an independent decoder to the given value, Auto renders the first supported type, encoding failures surface in c.Errors / the returned error and never panic. Non-trivial: every call; distinct by call description. Stream sources also include partly consumed strings/bytes readers and a SectionReader; an announced Content-Length must equal the delivered body length."
+	e.Rule = "short histories (3..8 calls on one router, so that a failed encoding is followed by a successful one) of response helper calls: Context.Text/HTML/HTMLString/JSON/JSONBytes/JSONP/XML/Blob/Stream/NoContent/Redirect/HTTPError and pkg/render JSON/JSONIndented/JSONRenderer/JSONP/XML/XMLPretty/XMLRenderer/Text/HTML/Blob/Auto; statuses from {-1,0,100,...,599,600,701,999}; request methods GET, POST, PUT and HEAD (through the GET route); values: strings with HTML/unicode/control characters, nested maps, structs, byte slices and unencodable values (chan, func, NaN, map holding a channel); Stream readers with and without WriteTo, one-byte reads and a failing reader; preset or absent Content-Type; Accept lists with q-parameters, blanks, unsupported types (incl. text/html, for which Auto has no renderer, anywhere in the list). Oracle: recorded status == given (200 for <= 0), Content-Type == documented constant (or the preset one where the documentation says it is preserved), body decodes with an independent decoder to the given value, Auto renders the first supported type, encoding failures surface in c.Errors / the returned error and never panic. Non-trivial: every call; distinct by call description. Stream sources also include partly consumed strings/bytes readers and a SectionReader; an announced Content-Length must equal the delivered body length."
 	e.Assumptions = []string{
 		"values compared after decoding with encoding/json / encoding/xml (numbers as float64)",
 		"XML strings restricted to characters XML can carry",
@@ -514,6 +514,12 @@ func runC19(e *Env) {
 		t.Describe(func() any { return map[string]any{"calls": descs} })
 		for i := 0; i < n; i++ {
 			call := genCall(r)
+			// the helpers do the same for every request method (what a server makes of a HEAD response's body is
+			// the server's business): HEAD reaches the GET route through the router's fallback
+			method := pick(r, []string{"GET", "GET", "POST", "HEAD", "PUT"})
+			if method != "GET" {
+				call.Desc += " [" + method + " request]"
+			}
 			descs = append(descs, call.Desc)
 			if i == 0 {
 				t.AutoSample()
@@ -524,16 +530,21 @@ func runC19(e *Env) {
 			}
 			var retErr error
 			var ctxErrs int
-			router.GET("/x", func(c *rux.Context) {
+			hnd := func(c *rux.Context) {
 				retErr = call.Do(c)
 				ctxErrs = len(c.Errors)
-			})
+			}
+			if method == "HEAD" || method == "GET" {
+				router.GET("/x", hnd)
+			} else {
+				router.Any("/x", hnd)
+			}
 			rec := NewRec()
 			var w http.ResponseWriter = rec
 			if chance(r, 1, 3) {
 				w = RecRF{rec} // like net/http's response: the underlying writer has ReadFrom
 			}
-			pv, panicked := catch(func() { router.ServeHTTP(w, NewReq("GET", "/x")) })
+			pv, panicked := catch(func() { router.ServeHTTP(w, NewReq(method, "/x")) })
 			t.Count("calls.total", 1)
 			t.NonTrivial(call.Desc)
 			t.Tracef("%s -> writer [%s] Content-Type %q body %q returned err=%v ctx errors=%d", call.Desc, rec.CallLog(), rec.H.Get("Content-Type"), truncate(rec.Body.String(), 80), retErr, ctxErrs)
